@@ -89,5 +89,45 @@ META = {
         technique='Coq theorem on executable model + differential correspondence with extracted model'),
 }
 
+NOTE_DISP = ('trusted: Coq kernel, extraction+driver, Go harness; compress/gzip|zlib (bodies decoded by the harness with the real '
+             'packages), Go panic/defer/recover (modelled), net/http mux (every table has a "/" service); user code restricted to '
+             'behaviour scripts; the tie between model and /repo is differential testing on generated configurations and histories')
+META.update({
+    'C06': dict(
+        text='Theorems Props.C06_chain and C06_request (Coq, no axioms): for every oracle, table, router, entry point, every list of '
+             'container / service / route filter scripts (each passing control on at most once, some stopping, some replacing the '
+             'request wrapper) and every starting state, serving a request terminates and its structural events are exactly: '
+             'container filters, then the selected service\'s, then the selected route\'s, in registration order, each once, the '
+             'route function iff all passed, then the posts in reverse; a request that fails routing gets exactly the container '
+             'filters around the error writer. Per-request freshness and concurrency: the event log, attributes and selected route '
+             'seen at every stage are compared between the sequential history, a fresh container per request, a concurrent batch '
+             'and the model.',
+        design_ref='DESIGN.md section 6, C06', note=NOTE_DISP, technique=TECH),
+    'C07': dict(
+        text='Theorems Props.C07_discipline, C07_wanted, C07_no_bypass (Coq, no axioms): for both entry points and every outcome '
+             '(success, routing error, panic with/without recovery) at most one compressor is acquired, it is released exactly once '
+             'with its stream closed, nothing bypasses it while installed, and it is installed only for a coding the request\'s '
+             'Accept-Encoding mentions, on a writer without Content-Encoding, with encoding enabled (Dispatch: route over container). '
+             'The full statement is refuted in Coq for ServeHTTP (C07_refuted_servehttp_route_off: known finding K-C07-1, replayed '
+             'on the real code). PARTIAL: the codec contract is assumed; bodies are decoded with the real compress packages in the '
+             'differential run; Handle / HandleWithFilter are not in the model yet.',
+        design_ref='DESIGN.md section 6, C07', note=NOTE_DISP, technique=TECH),
+    'C10': dict(
+        text='Theorems Props.C10_no_escape, C10_once, C10_propagates, C10_ledger (Coq, no axioms): with recovery on no panic escapes '
+             'Dispatch/ServeHTTP wherever it is raised; the recover handler runs at most once and its status reaches the client '
+             'when nothing was written; with recovery off the panic value reaches the caller; after every request the compressor '
+             'ledger is balanced and the stream closed, so any history of panicking and normal requests leaves the pool intact. '
+             'PARTIAL: Go\'s defer/recover is modelled; follow-up requests, the instrumented provider ledger and decoded bodies are '
+             'compared with the model on generated histories.',
+        design_ref='DESIGN.md section 6, C10', note=NOTE_DISP, technique=TECH),
+    'C19': dict(
+        text='Theorems Props.C19_pool_invariant and C19_events (Coq, no axioms): the model of serving takes configuration, request '
+             'and a fresh recorder only; the one thing that outlives a request (the compressor pool) is left balanced by every '
+             'request; the structural answer is the same from any starting state. PARTIAL: concurrency and long histories rest on '
+             'the differential run (each request answered identically in a sequential history, alone on a fresh container and in a '
+             'concurrent batch, all equal to the model).',
+        design_ref='DESIGN.md section 6, C19', note=NOTE_DISP, technique=TECH),
+})
+
 ALL = ['C%02d' % i for i in range(1, 20)]
 NOT_APPLICABLE = [dict(property_id=p, reason=PARTIAL_NOT_YET) for p in ALL if p not in META]
